@@ -444,6 +444,80 @@ func runC15(c *Ctx) {
 			rec.Violate("unsupported-curve-accepted", name, fmt.Sprintf("NewKeyFromPublic/NewKeyFromPrivate accepted a key on %s (errors: %v, %v)", name, e1, e2), in)
 		}
 	}
+	// coordinates that are not reduced field elements (v + p, still within the coordinate size): such a
+	// key has no public point - no verifier, no public key
+	{
+		type nf struct {
+			name string
+			crv  int64
+			x, y *big.Int
+			size int
+		}
+		var cases []nf
+		// P-521: p = 2^521 - 1, the 66-octet coordinates leave room for v + p with any v
+		k521 := mat.full[2]
+		p521 := elliptic.P521().Params().P
+		cases = append(cases,
+			nf{"P-521/x+p", 3, new(big.Int).Add(k521.X, p521), k521.Y, 66},
+			nf{"P-521/y+p", 3, k521.X, new(big.Int).Add(k521.Y, p521), 66},
+			nf{"P-521/x+p,y+p", 3, new(big.Int).Add(k521.X, p521), new(big.Int).Add(k521.Y, p521), 66})
+		// P-256: v + p fits 32 octets only for v below about 2^224: build points with a chosen small x
+		c256 := elliptic.P256().Params()
+		for tries, found := 0, 0; tries < 200 && found < 6; tries++ {
+			x := new(big.Int).SetBytes(r.Bytes(20 + r.Intn(8)))
+			// y^2 = x^3 - 3x + b
+			y2 := new(big.Int).Exp(x, big.NewInt(3), c256.P)
+			y2.Sub(y2, new(big.Int).Mul(big.NewInt(3), x))
+			y2.Add(y2, c256.B)
+			y2.Mod(y2, c256.P)
+			y := new(big.Int).ModSqrt(y2, c256.P)
+			if y == nil || !elliptic.P256().IsOnCurve(x, y) {
+				continue
+			}
+			found++
+			cases = append(cases, nf{fmt.Sprintf("P-256/small-x-%d/as-is", found), 1, x, y, 32}, nf{fmt.Sprintf("P-256/small-x-%d/x+p", found), 1, new(big.Int).Add(x, c256.P), y, 32})
+		}
+		for _, cs := range cases {
+			if cs.x.BitLen() > 8*cs.size || cs.y.BitLen() > 8*cs.size {
+				continue
+			}
+			w := gen.KeyMap([]gen.KeyEntry{{Label: refcbor.NInt(1), Value: refcbor.NInt(2)}, {Label: refcbor.NInt(-1), Value: refcbor.NInt(cs.crv)},
+				{Label: refcbor.NInt(-2), Value: refcbor.NBstr(cs.x.FillBytes(make([]byte, cs.size)))}, {Label: refcbor.NInt(-3), Value: refcbor.NBstr(cs.y.FillBytes(make([]byte, cs.size)))}})
+			b := refcbor.Encode(w)
+			in := map[string]any{"cell": "field-element/" + cs.name, "key": hexs(b)}
+			var k cose.Key
+			var err error
+			if guard(rec, "Key.UnmarshalCBOR", in, func() { err = k.UnmarshalCBOR(b) }) {
+				continue
+			}
+			rec.Eval(1)
+			rec.Class(fmt.Sprintf("field-element/%s/accepted=%v", cs.name, err == nil))
+			if err != nil {
+				continue
+			}
+			reduced := strings.HasSuffix(cs.name, "as-is")
+			var verr, perr error
+			var pub any
+			if guard(rec, "Key.Verifier/PublicKey", in, func() { _, verr = k.Verifier(); pub, perr = k.PublicKey() }) {
+				continue
+			}
+			rec.Event("field-element-cases")
+			if reduced {
+				if verr != nil || perr != nil {
+					rec.Violate("gate", "field-element/valid-refused", fmt.Sprintf("a valid point with a small x yields no verifier / public key: %v / %v", verr, perr), in)
+				}
+				continue
+			}
+			if verr == nil {
+				rec.Violate("gate", "field-element/"+strings.SplitN(cs.name, "/", 2)[0], "Verifier() succeeded for a key whose coordinate is not a reduced field element (v + p): the key has no public point", in)
+			}
+			if perr == nil {
+				if ek, ok := pub.(*ecdsa.PublicKey); ok && (ek.X.Cmp(ek.Curve.Params().P) >= 0 || ek.Y.Cmp(ek.Curve.Params().P) >= 0) {
+					rec.Event("field-element:PublicKey-returns-unreduced-coordinates") // the conversion itself is C14's subject; only the gate is judged here
+				}
+			}
+		}
+	}
 	// Go keys of families the COSE_Key conversion does not know must be refused (never a half-filled Key)
 	{
 		rk := testkeys.RSA(2048)
